@@ -134,6 +134,28 @@ theorem extend_contents {env : Env} {r r' : Rodeo} (hr : RodeoReach env r) (xs :
 theorem fromIter_is_extend (env : Env) (N : Nat) (xs : List Bytes) :
     Rodeo.fromIter env N xs = (Rodeo.new N 4096 18446744073709551615).extend env xs := rfl
 
+/-! ### Tie to the source: the collection traits, statement by statement
+
+`Extracted.*ExtendEffects` / `*FromIterEffects` are regenerated from `impl Extend` / `impl FromIterator` of both
+interners.  Statements that only compute locals (the iterator, the size hint, the capacity) are `.pure` and
+dropped; what remains must be exactly the model's `Rodeo.extend` / `Rodeo.fromIter` (`Threaded.*`): one
+infallible `get_or_intern(item.as_ref())` per item, in order, on `self` - resp. on an interner built with the
+default byte capacity, no limit and a default hasher (the hint only pre-sizes the tables), which is then returned.
+An early `return`, a condition around the call, a skipped or doubled item, another constructor show up as an
+unrecognised or different effect. -/
+def collBody (e : List Source.CollEffect) : List Source.CollEffect := e.filter (· != .pure)
+
+def isExtendLoop (e : List Source.CollEffect) : Bool := collBody e == [.loopBegin, .internItem, .loopEnd]
+
+def isFromIter (e : List Source.CollEffect) : Bool :=
+  collBody e == [.buildWithHint, .loopBegin, .internItem, .loopEnd, .returnBuilt] ||
+  collBody e == [.buildDefault, .loopBegin, .internItem, .loopEnd, .returnBuilt]
+
+theorem collection_traits_follow_model :
+    isExtendLoop Extracted.rodeoExtendEffects = true ∧ isExtendLoop Extracted.threadedExtendEffects = true ∧
+    isFromIter Extracted.rodeoFromIterEffects = true ∧ isFromIter Extracted.threadedFromIterEffects = true := by
+  decide
+
 /-- Indexing by key is the checked `resolve`, including the panic on an unknown key (the driver runs
 the same model function for both; on the real code `Index::index` forwards to `resolve`). -/
 theorem index_is_resolve (env : Env) (r : Rodeo) (k : Nat) (hk : r.strings.length ≤ k) :
